@@ -97,6 +97,12 @@ CHECKS["C04"] = dict(
    text="Every program of the families whose reference run is specified: the emitted TypeScript (node --experimental-strip-types) and the emitted WebAssembly must print the same lines and end the same way (both return, or both panic with the same message); stack exhaustion is never compared. " + _FAM,
    note="Trusted: V8 / node 22 for both sides.",
    design_ref="DESIGN.md §5 C04")
+CHECKS["C12"] = dict(
+   category="exploration",
+   technique="exhaustive enumeration of configurations (module-reference allocation orders x hash-map iteration orders x worker counts) on the real compile_sources, plus exhaustive interleaving exploration (loom) of the one shared atomic on the real samlang-heap source; sampled residual over internal hash seeds is labelled as such",
+   text="Three multi-module programs (accepted with cross-module recursive enums / generics / closures; rejected with errors in three modules; accepted with clashing class names and mutual imports): all n! allocation orders x all n! iteration orders of the source map with 1 and 16 workers, and worker counts 1..16 on two order pairs: identical verdict, byte-equal rendered diagnostics for the same allocation order (same multiset otherwise), and identical behaviour of every distinct emitted Wasm/TS artefact on node 22. The atomic temp-name counter shared by the parallel optimiser is model-checked with loom on the unmodified source (2 threads unbounded, 3 threads with preemption bound 3): every name ever handed out is distinct, also after sync_temp_counter.",
+   note="Internal std HashMap seeds cannot be enumerated; they are varied on fresh threads (8 quick / 64 thorough runs per program) and reported separately. rayon itself is not loom-aware: the interleaving claim covers the shared counter, which the audit shows to be the only shared mutable state.",
+   design_ref="DESIGN.md §5 C12")
 NOT_YET = "check not built yet in this round (planned: see DESIGN.md §5)"
 
 hooks_commits = subprocess.run(["git","-C","/repo","log","--format=%H %s"],capture_output=True,text=True).stdout.splitlines()
